@@ -333,6 +333,8 @@ def allowed_lines(doc, ledger, nodes, info):
     where = info.get("line_of", "command")
     if where == "command":
         return {led["line"]}, False, "command line %d" % led["line"]
+    if where == "within":
+        return set(range(led["line"], led["end_line"] + 1)), False, "lines %d-%d of the command" % (led["line"], led["end_line"])
     if where == "exec":
         return set(range(led["line"], led["end_line"] + 1)), True, "none or lines %d-%d" % (led["line"], led["end_line"])
     name = where.split(":", 1)[1]
